@@ -50,7 +50,18 @@ impl Ser {
 		}
 	}
 	fn assert_stmt(&self, a: &AssertStmt) -> Value {
-		json!({"c": self.expr(&a.0.value), "m": a.1.as_ref().map_or(json!({"t":"none"}), |m| self.expr(&m.value))})
+		let mut c = json!({"e": self.expr(&a.0.value)});
+		self.sp(&mut c, &a.0.span);
+		let m = a.1.as_ref().map_or(json!({"t":"none"}), |m| {
+			let mut o = json!({"e": self.expr(&m.value)});
+			self.sp(&mut o, &m.span);
+			o
+		});
+		if self.spans {
+			json!({"c": c["e"].clone(), "m": if m.get("e").is_some() { m["e"].clone() } else { m.clone() }, "cw": c, "mw": m})
+		} else {
+			json!({"c": c["e"].clone(), "m": if m.get("e").is_some() { m["e"].clone() } else { m }})
+		}
 	}
 	fn field(&self, f: &FieldMember) -> Value {
 		let name = match &f.name.value {
@@ -71,7 +82,11 @@ impl Ser {
 		Value::Array(
 			cs.iter()
 				.map(|c| match c {
-					CompSpec::IfSpec(i) => json!({"t":"if","c":self.expr(&i.cond)}),
+					CompSpec::IfSpec(i) => {
+						let mut o = json!({"t":"if","c":self.expr(&i.cond)});
+						self.sp(&mut o, &i.span);
+						o
+					}
 					CompSpec::ForSpec(f) => {
 						json!({"t":"for","n":self.destruct(&f.destruct),"o":self.expr(&f.over)})
 					}
@@ -158,7 +173,18 @@ impl Ser {
 				let part = |p: &Option<jrsonnet_ir::Spanned<Expr>>| {
 					p.as_ref().map_or(json!({"t":"none"}), |e| self.expr(&e.value))
 				};
-				json!({"t":"slice","e":self.expr(&s.value),"start":part(&s.slice.start),"end":part(&s.slice.end),"step":part(&s.slice.step)})
+				let mut o = json!({"t":"slice","e":self.expr(&s.value),"start":part(&s.slice.start),"end":part(&s.slice.end),"step":part(&s.slice.step)});
+				if self.spans {
+					let w = |p: &Option<jrsonnet_ir::Spanned<Expr>>| {
+						p.as_ref().map_or(Value::Null, |e| {
+							let mut o = json!({"e": self.expr(&e.value)});
+							self.sp(&mut o, &e.span);
+							o
+						})
+					};
+					o["partsw"] = json!([w(&s.slice.start), w(&s.slice.end), w(&s.slice.step)]);
+				}
+				o
 			}
 		}
 	}
